@@ -45,6 +45,15 @@ func gen(r *Rng, tier string, emit Emit) {
 	for it := 0; it < nal; it++ {
 		emit("P", "p_c02_align", N(r.Fork(uint64(6000000+it)).U64()))
 	}
+	// a file with sections of 16 MiB and more that an edit shrinks below 16 MiB (or keeps large):
+	// built in the worker
+	nsh := 4
+	if tier == "thorough" {
+		nsh = 40
+	}
+	for it := 0; it < nsh; it++ {
+		emit("P", "p_c02_shrink", N(r.Fork(uint64(6500000+it)).U64()))
+	}
 	// images of the general grammar (all section kinds, arbitrary names): model correspondence
 	for it := 0; it < ngr; it++ {
 		rr := r.Fork(uint64(5000000 + it))
@@ -111,6 +120,8 @@ func emitTables(emit Emit, c editops.ECase) {
 func main() {
 	CaseTimeout = 20 * time.Second
 	editops.Enc = editops.FianoEnc
+	// files with sections in the FFSv3 large form although small: rebuilt in the small form by every save
+	editops.LargeSectioned = true
 	editops.RegisterAll()
 	Main(gen)
 }
